@@ -184,6 +184,12 @@ func runC19(res *lib.Result, tier string, seed int64, args []string) error {
 				// plus a function on a table that is local to a block, to a branch and to a function body
 				files[fmt.Sprintf("f%d.lua", fi)] = fmt.Sprintf("function wsfun%dx%d(a)\n  return a\nend\nwsglob%dx%d = %d\ndo\n  local Inner%dx%d = {}\n  function Inner%dx%d.run%dx%d(x) end\nend\nlocal function outer%dx%d()\n  local Nest%dx%d = {}\n  function Nest%dx%d:deep%dx%d() end\nend\n",
 					wi, fi, wi, fi, fi, wi, fi, wi, fi, wi, fi, wi, fi, wi, fi, wi, fi, wi, fi)
+				if fi%4 == 0 {
+					// a local function three scopes deep whose earlier sibling scope has two sub-scopes of its own
+					files[fmt.Sprintf("f%d.lua", fi)] += fmt.Sprintf("local function setup%dx%d(list)\n  local function scan%dx%d()\n    for i = 1, #list do list[i] = i end\n    for i = #list, 1, -1 do list[i] = nil end\n    while list[1] do list[1] = nil end\n    do local z = 1 list[z] = z end\n    if list[2] then list[2] = nil end\n  end\n  local function build%dx%d()\n    local function hidden%dx%d() return 1 end\n    return hidden%dx%d\n  end\n  return scan%dx%d, build%dx%d\nend\n",
+						wi, fi, wi, fi, wi, fi, wi, fi, wi, fi, wi, fi, wi, fi)
+					blockFns = append(blockFns, [3]string{fmt.Sprintf("f%d.lua", fi), fmt.Sprintf("hidden%dx%d", wi, fi), fmt.Sprintf("hidden%dx%d", wi, fi)})
+				}
 				blockFns = append(blockFns, [3]string{fmt.Sprintf("f%d.lua", fi), fmt.Sprintf("Inner%dx%d.run%dx%d", wi, fi, wi, fi), fmt.Sprintf("run%dx%d", wi, fi)},
 					[3]string{fmt.Sprintf("f%d.lua", fi), fmt.Sprintf("Nest%dx%d.deep%dx%d", wi, fi, wi, fi), fmt.Sprintf("deep%dx%d", wi, fi)})
 				continue
@@ -195,6 +201,11 @@ func runC19(res *lib.Result, tier string, seed int64, args []string) error {
 				}
 			}
 			files[fmt.Sprintf("f%d.lua", fi)] = src
+		}
+		if many {
+			// a file of its own: a local function three scopes deep whose earlier sibling scope has several sub-scopes
+			files["deep.lua"] = fmt.Sprintf("local function setupD%d(list)\n  local function scanD%d()\n    for i = 1, #list do list[i] = i end\n    for i = #list, 1, -1 do list[i] = nil end\n  end\n  local function buildD%d()\n    local function hiddenD%d() return 1 end\n    return hiddenD%d\n  end\n  return scanD%d, buildD%d\nend\nreturn setupD%d\n", wi, wi, wi, wi, wi, wi, wi, wi)
+			blockFns = append(blockFns, [3]string{"deep.lua", fmt.Sprintf("hiddenD%d", wi), fmt.Sprintf("hiddenD%d", wi)})
 		}
 		if !many && nf >= 2 && nf <= 3 {
 			// a global table declared in one file gets a function member in another file
@@ -326,7 +337,7 @@ func runC19(res *lib.Result, tier string, seed int64, args []string) error {
 		}
 		// functions declared on tables that are local to a nested block / function body: findable by name
 		for k, bf := range blockFns {
-			if k%3 != 0 {
+			if k%3 != 0 && !strings.HasPrefix(bf[1], "hidden") {
 				continue
 			}
 			ws, err := sess.WorkspaceSymbol(bf[1])
